@@ -396,6 +396,7 @@ def execute(trace, ctx):
 
     snapshot = None
     live = []        # [iterator, items delivered so far, expected list when it was created]
+    held = []        # (molecule handed out by an index access, the instance it was, the index)
 
     def take_snapshot():
         return (len(system), dict(system.composition),
@@ -451,6 +452,8 @@ def execute(trace, ctx):
                 m = mol_mismatch(g, exp[k], species)
                 if m:
                     ctx.violate(P, "indexed-molecule", f"loaded {loaded}: system[{k}]: {m}", key="neg" if k < 0 else "pos")
+                elif len(held) < 60:
+                    held.append((g, exp[k], k))      # stays with the caller; looked at again when the history is over
                 ctx.op(kind, "neg" if k < 0 else "pos")
             elif kind == "slice":
                 a = None if op["a"] is None else int(round(op["a"] * n))
@@ -578,4 +581,16 @@ def execute(trace, ctx):
             ctx.violate(P, "observer-raised", f"operation {op} raised {type(e).__name__}: {e}\n{traceback.format_exc()[-600:]}",
                         key=kind)
             return
+    # molecules handed out earlier are the caller's: later accesses and loads must not have rewritten them
+    for g, w, k in held:
+        try:
+            m = mol_mismatch(g, w, species)
+        except Exception as e:
+            m = f"raised {type(e).__name__}: {e}"
+        if m:
+            ctx.violate(P, "held-molecule-changed", f"the molecule returned earlier by system[{k}] no longer shows its run of the "
+                                                    f"file after later accesses: {m}")
+            break
+    if held:
+        ctx.probe("held_molecules_rechecked")
     ctx.nontrivial = True
